@@ -326,6 +326,8 @@ static void op_qdl(char **tok, int ntok)
 	free(q); free(t);
 }
 
+#include "h_wire.h"
+
 int main(void)
 {
 	char *line = NULL;
@@ -345,6 +347,11 @@ int main(void)
 		else if (!strcmp(tok[0], "dotify")) op_dotify(tok, ntok);
 		else if (!strcmp(tok[0], "unpack")) op_unpack(tok, ntok, 0);
 		else if (!strcmp(tok[0], "extract")) op_unpack(tok, ntok, 1);
+		else if (!strcmp(tok[0], "readname")) op_readname(tok, ntok);
+		else if (!strcmp(tok[0], "putname")) op_putname(tok, ntok);
+		else if (!strcmp(tok[0], "dnsenc")) op_dnsenc(tok, ntok);
+		else if (!strcmp(tok[0], "dnsdec")) op_dnsdec(tok, ntok);
+		else if (!strcmp(tok[0], "txt")) op_txt(tok, ntok);
 		else if (!strcmp(tok[0], "topdom")) op_topdom(tok, ntok);
 		else if (!strcmp(tok[0], "qdl")) op_qdl(tok, ntok);
 		else if (!strcmp(tok[0], "initusers")) op_initusers(tok, ntok, 0);
